@@ -4,7 +4,8 @@ R12.1  every import statement of the 8 RUNTIME_FILES payload modules is stdlib /
 R12.2  closure: relative imports of runtime files target other runtime files or files the emitters generate;
        every RUNTIME_FILES source exists
 R12.3  verbatim copy: in CoreEmitter.emit the value written is the unmodified `f.read()` result
-R12.6  the post-processor never receives the runtime copies (file lists are filtered against RUNTIME_FILES)
+R12.6  the post-processor never receives the runtime copies (file lists are filtered against RUNTIME_FILES, both sides resolved)
+R12.7  RenderContext never "completes" a module path of the core package (root or sub-module) into the client package       [= R1.11]
 R12.4  import registrations (add_import & co.): module argument never names the generator or a foreign package
 R12.5  import statements embedded in templates obey the same allow-list
 """
@@ -396,6 +397,10 @@ def run(repo: Repo, rep: Report, tier: str) -> None:
     rep.count("R12.5:template_import_statements", n_tmpl)
     rep.require(n_tmpl >= 30, f"R12.5: only {n_tmpl} template-embedded import statements found (floor 30)")
     rule_postprocess_skips_runtime_copies(repo, rep, "R12.6")
+    # R12.7: imports of the core are rendered against core_package_name for the package itself and for its sub-modules   [= R1.11]
+    from rules.c01 import rule_completion_spares_core
+
+    rule_completion_spares_core(repo, rep, "R12.7")
 
 
 def _inside_stmt(node: ast.AST, anc: ast.AST) -> bool:
@@ -513,6 +518,8 @@ def rule_postprocess_skips_runtime_copies(repo: Repo, rep, rule: str = "R12.6") 
     rep.count(f"{rule}:postprocess_calls", len(runs))
     rep.require(len(runs) >= 1, f"{rule}: no PostprocessManager(...).run(...) call found in generate (anchor)")
 
+    lexical: List[bool] = []
+
     def filters_runtime(scope: ast.AST, L) -> bool:
         """a comprehension / filter in `scope` whose condition is `<path> not in <S>` with S derived from RUNTIME_FILES"""
         for n in ast.walk(scope):
@@ -526,10 +533,18 @@ def rule_postprocess_skips_runtime_copies(repo: Repo, rep, rule: str = "R12.6") 
                     if isinstance(x, ast.Compare) and len(x.ops) == 1 and isinstance(x.ops[0], ast.NotIn):
                         src = L.inline(x.comparators[0], stop=tuple(L.params)) if L is not None else x.comparators[0]
                         if "RUNTIME_FILES" in norm(src):
+                            # CoreEmitter reports its destinations as join(out_dir, relpath(core_dir, out_dir), ...): for a core outside the
+                            # client package those paths contain `..` and equal the plain `core_dir / name` only after resolution
+                            def _phys(e: ast.AST) -> bool:
+                                return any(isinstance(k, ast.Call) and ((isinstance(k.func, ast.Attribute) and k.func.attr in ("resolve", "samefile")) or
+                                                                         (dotted(k.func) or "").endswith(("realpath", "normpath"))) for k in ast.walk(e))
+
+                            lexical.append(not (_phys(x.left) and _phys(src)))
                             return True
         return False
 
     for c in runs:
+        del lexical[:]
         arg = GL.inline(c.args[0], stop=tuple(GL.params))
         sub = f"{gen.module.relpath}:generate `{norm(c)[:60]}`"
         ok = filters_runtime(arg, GL)
@@ -546,8 +561,12 @@ def rule_postprocess_skips_runtime_copies(repo: Repo, rep, rule: str = "R12.6") 
             if hf is None or hf is gen:
                 continue
             ok = ok or filters_runtime(hf.node, _L(hf.node))
-        if ok:
-            rep.ok(rule, sub, "the file list is filtered against the paths built from RUNTIME_FILES before the formatters run: the runtime copies stay byte-for-byte", gen.loc(c))
+        if ok and any(lexical):
+            rep.violation(rule, sub, f"{gen.fq}|runtime-filter-compares-unresolved-paths",
+                          "the filter compares the emitted paths with `core_dir / <name>` without resolving both sides: the paths CoreEmitter reports for a core outside "
+                          "the client package contain `..` (`<out>/../shared_core/x.py`), never compare equal, and the formatters rewrite the verbatim runtime copies", gen.loc(c))
+        elif ok:
+            rep.ok(rule, sub, "the file list is filtered against the resolved paths built from RUNTIME_FILES before the formatters run: the runtime copies stay byte-for-byte", gen.loc(c))
         else:
             rep.violation(rule, sub, f"{gen.fq}|postprocess-rewrites-runtime-copies",
                           "the formatters (ruff format / isort / unused-import fixes, run in place) receive the runtime modules CoreEmitter copied verbatim: "
